@@ -383,7 +383,7 @@ def correspond(run, stream, hargs, timeout=1800, reference_theorem=None):
     meta = json.load(open(meta_p))
     run.cov['evaluations'] += meta.get('evaluations', 0)
     run.cov['distinct_nontrivial'] += meta.get('distinct_nontrivial', 0)
-    run.cov['samples'] += meta.get('samples', [])[:4]
+    run.cov['samples'] += (meta.get('samples') or [])[:4]
     run.notes.setdefault('input_distribution', {})[stream] = meta.get('distribution', {})
     for f in meta.get('failures', []):
         run.fail(source='oracle:' + stream, **f)
@@ -432,7 +432,7 @@ def oracle(run, stream, hargs, timeout=1800):
     meta = json.load(open(meta_p))
     run.cov['evaluations'] += meta.get('evaluations', 0)
     run.cov['distinct_nontrivial'] += meta.get('distinct_nontrivial', 0)
-    run.cov['samples'] += meta.get('samples', [])[:4]
+    run.cov['samples'] += (meta.get('samples') or [])[:4]
     run.notes.setdefault('input_distribution', {})[stream] = meta.get('distribution', {})
     for f in meta.get('failures', []):
         run.fail(source='oracle:' + stream, **f)
